@@ -14,5 +14,5 @@ CONSTANTS
   ConfSets = {{1}, {2}, {1, 2}}
   OtherSets = {}
   RefKind = "att"
-INVARIANTS TypeOK FlagSound TimeoutSignalHeard OfferedInFull SuccessIff ReturnsByTimeout Independence ClassifiedByNow
+INVARIANTS TypeOK FlagSound TimeoutSignalHeard OfferedInFull SuccessIff ReturnsByTimeout Independence DeliveredToEach ClassifiedByNow
 CHECK_DEADLOCK FALSE
